@@ -5,7 +5,7 @@ import checklib as L
 TRUSTED_BASE = [
     "Coq 8.16.1 kernel (coqc; coqchk in the thorough tier); vm_compute used only in non-vacuity Examples; no native_compute",
     "hand-written model coq/Model/Queries.v of conn.go Seek/ReadOffsets/readOffset/ReadPartitions, protocol/listoffsets Split/Merge, listoffset.go, offsetfetch.go, offsetcommit.go, metadata.go, client.go ConsumerOffsets; tied by the differential run of harness/cmd/c19 (real code, build tag verif, exported API only: no hook file) against the OCaml extraction (ExtrOcamlBasic only)",
-    "harness/cmd/c19 fakeRT.RoundTrip replays transport.go (*connPool).roundTrip's Splitter path by hand (Split, one round trip per message routed by (*Request).Broker, results joined in order as in joined.await, Merge); the pooled Transport itself (connection set-up, metadata cache, retries) is not exercised here",
+    "harness/cmd/c19 fakeRT.RoundTrip replays transport.go (*connPool).roundTrip's Splitter path by hand (Split, one round trip per message routed by (*Request).Broker, results joined in order as in joined.await, Merge); the pooled Transport itself is exercised only by the end-to-end family (harness/cmd/c19/e2e.go: Client.ListOffsets/OffsetFetch/OffsetCommit through the real kafka.Transport against a wire-level multi-broker fake with broker ids from 0 and the bootstrap address on a non-zero broker, every broker answering only for the partitions it leads / groups it coordinates); connection faults, metadata refresh and retries are C12's",
     "the wire-level peer uses /repo/protocol's own ReadRequest/WriteResponse (list offsets v1, metadata v1/v6, ApiVersions v0) to talk to the legacy Conn decoders: a symmetric encode/decode defect of both would go unnoticed here (C04 covers the codecs)",
     "sort.Slice in Merge is not stable: merged partitions are compared after a total re-sort and a separate 'sorted by (partition, offset)' flag; Offsets-map entries written twice with different times are compared as '*'",
     "ocaml/kvio.ml.in + ocaml/c19_driver.ml (hex interchange and formatting, ~230 lines) and harness/kvfmt; the Python predicates below (independent re-statement of the property on the implementation's output)",
@@ -328,7 +328,19 @@ def rpq_predicate(args, res):
     return got == want
 
 
-PREDICATES = dict(rpq=rpq_predicate, merge=merge_predicate, lo=lo_predicate, of=of_predicate, md=md_predicate, rp=rp_predicate,
+def addr_predicate(args, res):
+    """Which cluster answers a Client query: the one at the request's Addr when it has one,
+    else at the client's Addr; with neither, the documented error and no round trip.  The
+    result must be that cluster's state (for the APIs the fake clusters implement)."""
+    api, req, cl = args.split(" ")
+    eff = req if req != "-" else cl
+    if eff == "-":
+        return res == "err"
+    stateful = api in ("ListOffsets", "Metadata", "OffsetFetch", "OffsetCommit", "ConsumerOffsets")
+    return res == eff + "/" + (eff if stateful else "-")
+
+
+PREDICATES = dict(addr=addr_predicate, rpq=rpq_predicate, merge=merge_predicate, lo=lo_predicate, of=of_predicate, md=md_predicate, rp=rp_predicate,
                   seek=seek_predicate)
 
 
@@ -410,6 +422,17 @@ def correspondence(ctx):
             for ver in ("v1", "v6"):
                 if not any(c["op"] == "rpq" and {shape, conn, ver} <= set(c["feats"].split(",")) for c in cases):
                     failures.append(dict(layer="correspondence", what=f"ReadPartitions case {shape} x {conn} x {ver} was not run on the implementation", detail="", input=None))
+    # the end-to-end family (real Transport, broker ids from 0, bootstrap on a non-zero broker) must have asked broker 0's partitions / groups
+    for op in ("lo", "of", "oc"):
+        if not any(c["op"] == op and {"e2e", "owner=broker-0"} <= set(c["feats"].split(",")) for c in cases):
+            failures.append(dict(layer="correspondence", what=f"end-to-end {op} case owned by broker 0 was not run through the real Transport", detail="", input=None))
+    # every stateful Client query must have met every address configuration
+    for api in ("ListOffsets", "Metadata", "OffsetFetch", "OffsetCommit", "ConsumerOffsets"):
+        for cfg in ("addr=client-only", "addr=request-only", "addr=both-same", "addr=both-different", "addr=neither"):
+            if api == "ConsumerOffsets" and cfg not in ("addr=client-only", "addr=neither"):
+                continue
+            if not any(c["op"] == "addr" and {"api=" + api, cfg} <= set(c["feats"].split(",")) for c in cases):
+                failures.append(dict(layer="correspondence", what=f"Client.{api} was not run in address configuration {cfg}", detail="", input=None))
     ev, dn, hist = L.coverage_counts(cases, trivial_feats=("", "faithful,none-failed,subs=1", "none-failed", "subs=0", "no-topics", "v1", "v6", "faithful,first", "faithful,last", "faithful,time", "absolute", "start", "end"))
     ops = {}
     for c in cases:
@@ -421,7 +444,7 @@ def correspondence(ctx):
                      "sub-results = faithful answers (error codes, returned timestamps, tied offsets), failures (none/some/all), adversarial responses (other topics/partitions, empty arrays), "
                      "and Merge on requests not produced by Split incl. fewer/more results than requests. Tier 2: Client.ListOffsets/OffsetFetch/OffsetCommit/ConsumerOffsets/Metadata through a fake RoundTripper "
                      "over generated clusters (1-5 brokers some unreachable, 1-5 topics, 1-6 partitions with log start/end, timestamp index, leader, epoch, per-partition errors, committed offsets per group, commit/fetch errors, "
-                     "unknown topics/partitions, duplicate node ids, unknown/-1 leaders). Tier 3: Conn.Seek histories of 1..6 steps (all whence values, SeekDontCheck, invalid whence, moving log bounds, boundary and +-1 offsets, "
+                     "unknown topics/partitions, duplicate node ids, unknown/-1 leaders). Tier 2b: two fake clusters with the same topics but different leaders, offsets and committed positions behind one RoundTripper keyed by address; ListOffsets/Metadata/OffsetFetch/OffsetCommit/ConsumerOffsets and 27 other Client methods in the address configurations {client Addr only, request Addr only, both same, both different, neither}: who was asked and whose state came back. Tier 2c (end to end): the same three Client queries through the real Transport against 2-4 wire-level brokers (ids from 0, bootstrap never broker 0), expected outcomes = the owners' answers. Tier 3: Conn.Seek histories of 1..6 steps (all whence values, SeekDontCheck, invalid whence, moving log bounds, boundary and +-1 offsets, "
                      "int64 extremes, broker errors on the first/second request) plus regression cases (SeekCurrent from the FirstOffset/LastOffset placeholders, leaderless partition in ReadPartitions), ReadFirstOffset/ReadLastOffset/ReadOffset and ReadPartitions (metadata v1 and v6) against a wire-level peer over net.Pipe; ReadPartitions argument shapes {no argument, nil slice, empty non-nil slice (literal, empty config, l[:0]), one topic, several, duplicates} x Conn {with, without topic} x metadata {v1, v6} against a peer that holds a cluster and answers according to the topic array decoded by hand from the raw request frame (null = all topics, empty = none, list = those). "
                      "A case is non-trivial when its feature vector is not a happy-path default (single faithful answer, no failure, plain whence); distinct by hash of op+args",
                 samples=[c["line"][:300] + " | " + c["go"][:120] for c in cases[:2] + cases[len(cases)//3:len(cases)//3+2] + cases[2*len(cases)//3:2*len(cases)//3+2] + cases[-2:]],
